@@ -52,4 +52,18 @@ def run():
         got = ast.unparse(core._normalise(ast.parse(src))).strip()
         if got != want.strip():
             bad.append("%s: got\n%s\nexpected\n%s" % (name, got, want))
+    # module-level names the reference tree did not have: numbers and
+    # literal tables that are only looked at read as their values
+    src = ("_STEPS_X = ((1, 1), (0, 1))\n_N_X = 6\n_LOG_X = []\n"
+           "def f(x):\n    for dx, dy in _STEPS_X:\n        x += dx % _N_X\n"
+           "    _LOG_X.append(x)\n    return x\n")
+    want = ("_STEPS_X = ((1, 1), (0, 1))\n_N_X = 6\n_LOG_X = []\n\n"
+            "def f(x):\n    for dx, dy in ((1, 1), (0, 1)):\n"
+            "        x += dx % 6\n    _LOG_X.append(x)\n    return x")
+    tree = ast.parse(src)
+    core._inline_new_constants(tree, "rig.geometry")
+    got = ast.unparse(tree).strip()
+    if got != want:
+        bad.append("new module-level constants: got\n%s\nexpected\n%s" % (
+            got, want))
     return bad
